@@ -257,3 +257,60 @@ def lemma_box_precedence(ctx):
             ("gen_coords: BuildSystem is constructed with that box and the requested density", [], z3.BoolVal(kw.get("box") == "box" and kw.get("density") == "density")),
             ("gen_coords: the structure is written with the box the topology carries after the build (set by BuildSystem.__init__)", [],
              z3.BoolVal(len(wg) == 1 and wkw.get("box") == "topology.box"))]
+
+
+def lemma_versions_per_type(ctx):
+    """C02 ('if several matches define the same atoms and version the one from the link defined last wins'): ApplyLinks keys an interaction
+    by (atoms, version) WITHIN its interaction type, so the version tags that PolyplyParser.treat_link_multiple hands out must count
+    identical atom tuples per interaction type of a link -- static obligations over the real AST: the counter is created inside the loop
+    over the interaction types of the link, from the terms of that type only, and the terms tagged are the same terms."""
+    import z3
+    from pyvc.types import Unsupported
+    mod = source.load("polyply.src.polyply_parser")
+    fn = mod.functions.get("PolyplyParser.treat_link_multiple")
+    if fn is None:
+        raise Unsupported("PolyplyParser.treat_link_multiple not found (stale contract)")
+    parents = {}
+    for p in ast.walk(fn):
+        for ch in ast.iter_child_nodes(p):
+            parents[id(ch)] = p
+
+    def loops_around(n):
+        out = []
+        while id(n) in parents:
+            n = parents[id(n)]
+            if isinstance(n, ast.For):
+                out.append(n)
+        return out
+    counters = [n for n in ast.walk(fn) if isinstance(n, ast.Assign) and isinstance(n.value, ast.Call) and call_name(n.value) == "Counter"]
+    if not counters:
+        raise Unsupported("treat_link_multiple no longer uses a Counter (stale contract)")
+
+    def per_type_loop(lp):
+        """for <key> in <link>.interactions  (or .items() / .keys())"""
+        return ast.unparse(lp.iter).replace(".keys()", "").replace(".items()", "").endswith(".interactions")
+    ok_scope, ok_source, ok_tagged = True, True, True
+    for cn in counters:
+        around = loops_around(cn)
+        type_loops = [lp for lp in around if per_type_loop(lp)]
+        ok_scope &= bool(type_loops)
+        if not type_loops:
+            continue
+        key = ast.unparse(type_loops[0].target).strip("()").split(",")[0].strip()
+        link = ast.unparse(type_loops[0].iter).split(".interactions")[0]
+        # names bound to the terms of this type inside that loop
+        per_type = {f"{link}.interactions[{key}]"}
+        if isinstance(type_loops[0].target, ast.Tuple) and len(type_loops[0].target.elts) == 2 and ".items()" in ast.unparse(type_loops[0].iter):
+            per_type.add(ast.unparse(type_loops[0].target.elts[1]))
+        for st in type_loops[0].body:
+            if isinstance(st, ast.Assign) and len(st.targets) == 1 and isinstance(st.targets[0], ast.Name) and ast.unparse(st.value) in per_type:
+                per_type.add(st.targets[0].id)
+        gens = [g for g in ast.walk(cn.value) if isinstance(g, ast.comprehension)]
+        ok_source &= len(gens) == 1 and ast.unparse(gens[0].iter) in per_type and not gens[0].ifs
+        cname = cn.targets[0].id if isinstance(cn.targets[0], ast.Name) else None
+        tag_loops = [lp for lp in ast.walk(type_loops[0]) if isinstance(lp, ast.For) and lp is not type_loops[0]
+                     and any(isinstance(n, ast.Subscript) and isinstance(n.value, ast.Name) and n.value.id == cname for n in ast.walk(lp))]
+        ok_tagged &= len(tag_loops) == 1 and ast.unparse(tag_loops[0].iter) in per_type
+    return [("treat_link_multiple: the counter of identical atom tuples is created inside the loop over the interaction types of a link", [], z3.BoolVal(ok_scope)),
+            ("treat_link_multiple: it counts the terms of that interaction type only", [], z3.BoolVal(ok_scope and ok_source)),
+            ("treat_link_multiple: the terms that receive the version tags are the terms of that type", [], z3.BoolVal(ok_scope and ok_tagged))]
